@@ -50,6 +50,10 @@ def setup(eng):
         def call_func(i, callback, name, *a, **k):
             def th():
                 w.emit("cb", callback, a, k)
+                # arguments are checked at the moment of the call (every iteration of the loop)
+                info = z3.Select(z3.Select(S["t2cb"].cols[".cb:.v"], cur), callback.t)
+                eng.oblige("C14/Function.run_coro/post.callback-gets-its-stored-arguments",
+                           len(a) == 1 and "kw" in k and z3.And(a[0].t == info_args(info), k["kw"].t == info_kwargs(info)))
                 mode = ["returns", "raises", "cancelled"][eng.choose(3, "callback")]
                 # user code may suspend before finishing
                 w.yield_point("done-callback", cancellable=False)
@@ -175,15 +179,6 @@ def h_run_coro(eng):
                         Forall([ObjS], lambda c: z3.Select(called.cols["in"], c) == z3.Select(cbs0["members"], c), "c"))
         if ob.status == "refuted":
             ob.witness = wit(sig)
-    # arguments: every recorded call used the stored arguments of that callback (checked per call event)
-    for e in w.events("cb"):
-        cbk = e[1]
-        a, k = e[2], e[3]
-        info = None
-        eng.oblige(f"{U}/post.callback-gets-its-stored-arguments",
-                   len(a) == 1 and "kw" in k and z3.And(
-                       a[0].t == S["info_args"](info_of(t2cb, w, cur, cbk)),
-                       k["kw"].t == S["info_kwargs"](info_of(t2cb, w, cur, cbk))))
     if mode == "cancel" or cancelled_in_cb:
         eng.oblige(f"{U}/post.cancellation-propagates", kind == "exc" and val.cls.name == "CancelledError")
     else:
